@@ -92,7 +92,6 @@ Definition node_ok (w : world) (n : node) : Prop :=
 
 Definition model_ok (w : world) (x : model) : Prop :=
   m_root x < w_next w /\
-  (forall k e, In (k, e) (m_idents x) -> e < w_next w) /\
   (forall k l e, In (k, l) (m_origins x) -> In e l -> e < w_next w).
 
 (* [Closed]: holds in EVERY intermediate state of every operation (each primitive step keeps it) *)
